@@ -56,6 +56,7 @@ type Op struct {
 	NewCas   uint64            `json:"newcas,omitempty"` // WithMeta: offset added to a base
 	JSON     bool              `json:"json,omitempty"`   // WithMeta datatype
 	Dur      int               `json:"dur,omitempty"`    // advance-time ops: seconds
+	Feed     *FeedSpec         `json:"feed,omitempty"`   // StartFeed / StopFeed / WaitFeed
 	// Resolved at run time (recorded for the model and for replay diagnostics):
 	CasArg uint64 `json:"-"`
 	ExpArg uint32 `json:"-"`
